@@ -8,6 +8,7 @@ import Vgw.Driver.Policy
 import Vgw.Driver.BucketName
 import Vgw.Driver.Path
 import Vgw.Driver.Walk
+import Vgw.Driver.Proxy
 import Vgw.Driver.IAM
 import Vgw.Driver.Robust
 import Vgw.Driver.Crash
@@ -33,6 +34,7 @@ def dispatch (d : DriverState) (line : String) : DriverState × String :=
     let (g, out) := Vgw.Driver.IAM.handle d.iam rest
     ({ d with iam := g }, out.getD "bad-op")
   | "robust" :: rest => (d, (Vgw.Driver.Robust.handle rest).getD "bad-op")
+  | "proxy" :: rest => (d, (Vgw.Driver.Proxy.handle rest).getD "bad-op")
   | "bucketname" :: rest => (d, (Vgw.Driver.BucketName.handle rest).getD "bad-op")
   | "glob" :: rest => (d, (Vgw.Driver.Policy.globHandle rest).getD "bad-op")
   | "policy" :: rest => (d, (Vgw.Driver.Policy.handle rest).getD "bad-op")
